@@ -225,8 +225,8 @@ class Link:
         self.loop.call_at(when, self._arrive, data, corrupted, context=self.dst_ctx)
 
     def _arrive(self, data, corrupted):
-        if self.closed:
-            return
+        # (a datagram that is already on its way arrives whatever the sender does to its socket afterwards: `closed`
+        # only stops new sends; a closed *destination* drops it in its own inject())
         self.stats["delivered"] += 1
         if self.tap:
             self.tap("recv", data, {"corrupted": corrupted})
